@@ -243,10 +243,14 @@ def _tsc_limit(ct, tier, seed):
     clauses, fails, cases = {}, [], 0
     cid = 'C08.runtime.transverse_spherical_sum_predicts_small_aperture_marginal_ray_error'
     c_ = clauses.setdefault(cid, {'paths': 0, 'proved': 0, 'backends': {}, 'failed': [], 'seconds': 0.0, 'bounded': True})
-    for i in range(4 if tier == 'quick' else 40):
+    for i in range(6 if tier == 'quick' else 40):
         L = Optic()
         finite = (i % 3 == 2)
-        L.add_surface(index=0, thickness=(rng.uniform(150, 400) if finite else np.inf))
+        immersed = finite and (i % 2 == 0)               # object in a medium other than air, aperture given as object-space NA
+        if immersed:
+            L.add_surface(index=0, thickness=rng.uniform(150, 400), material=IdealMaterial(rng.uniform(1.2, 1.6)))
+        else:
+            L.add_surface(index=0, thickness=(rng.uniform(150, 400) if finite else np.inf))
         idx = 1
         stop_at = rng.randrange(1, 5)
         for e in range(2):
@@ -258,7 +262,10 @@ def _tsc_limit(ct, tier, seed):
             L.add_surface(index=idx, radius=R2, thickness=rng.uniform(3, 20), is_stop=(idx == stop_at))
             idx += 1
         L.add_surface(index=idx)
-        L.set_aperture('EPD', rng.uniform(4, 8))
+        if immersed:
+            L.set_aperture('objectNA', rng.uniform(0.01, 0.02))
+        else:
+            L.set_aperture('EPD', rng.uniform(4, 8))
         if finite:
             L.set_field_type('object_height')
             L.add_field(y=0)
